@@ -267,7 +267,9 @@ Record env := mkEnv {
   e_liquidate : Z -> Z -> Z -> BW -> PF -> PF -> res (BW * PF * PF);
   e_bankrupt : Z -> Z -> BW -> PF -> res (BW * PF);     (* signer bank *)
   e_pf_empty : PF;                          (* LendingAccount::zeroed() *)
-  e_other : ixd -> world -> res (BW * list patch)
+  e_other : ixd -> world -> res (BW * list patch);
+  (* check_account_init_health handed an EMPTY remaining-accounts slice (the engine cannot load any bank / oracle) *)
+  e_init_check_norem : PF -> res unit
 }.
 
 Context (R : env).
@@ -365,7 +367,8 @@ Definition h_start_fl (ixes : list ixd) (cur : Z) (cpi : bool) (w : world) (a au
   let* _ := check_flashloan_can_start (a_fl A) a ixes cur end_idx cpi in
   Ok (set_acct w a (upd_fl A (set_fl (a_fl A) true))).
 
-Definition h_end_fl (cpi : bool) (w : world) (a auth : Z) : res world :=
+(* norem: the instruction carries no remaining accounts (risk accounts omitted by the caller) *)
+Definition h_end_fl (cpi : bool) (w : world) (a auth : Z) (norem : bool) : res world :=
   let* A := get_acct w a in
   let* _ := check (a_auth A =? auth) (E E_Unauthorized) in
   let* _ := check (negb cpi) (E E_NotAllowedInCPI) in
@@ -373,7 +376,7 @@ Definition h_end_fl (cpi : bool) (w : world) (a auth : Z) : res world :=
   let* _ := check (negb (f_disabled fl)) (E E_AccountDisabled) in
   let* _ := check (negb (f_recv fl)) (E E_ForbiddenIx) in
   let* _ := check (negb (f_frozen fl)) (E E_AccountFrozen) in
-  let* _ := e_init_check R (w_bw w) (a_pf A) in
+  let* _ := (if norem then e_init_check_norem R (a_pf A) else e_init_check R (w_bw w) (a_pf A)) in
   Ok (set_acct w a (upd_pf (upd_fl A (set_fl fl false)) (a_pf A) false)).
 
 (* ---- withdraw.rs (and kamino / drift / solend withdraw) ---- *)
@@ -510,7 +513,8 @@ Definition run_mfi (ixes : list ixd) (cur : Z) (cpi : bool) (w : world) (d : ixd
   else if c =? DISP_SF then
     let* a := acct_at d 0 in let* s := acct_at d 1 in let* e := arg_at d 0 in h_start_fl ixes cur cpi w a s e
   else if c =? DISP_EF then
-    let* a := acct_at d 0 in let* s := acct_at d 1 in h_end_fl cpi w a s
+    let* a := acct_at d 0 in let* s := acct_at d 1 in
+    h_end_fl cpi w a s (match nth_error (d_args d) 0 with Some 1 => true | _ => false end)
   else if (c =? DISP_WD) || (c =? DISP_KW) || (c =? DISP_DW) || (c =? IX_SW) then
     let* a := acct_at d 1 in let* s := acct_at d 2 in let* b := acct_at d 3 in
     let* m := arg_at d 0 in let* al := arg_at d 1 in h_withdraw w a s b m (negb (al =? 0))
